@@ -18,6 +18,7 @@
 EXTENDS TLC, Sequences, Naturals, FiniteSets, SequencesExt
 
 BoolKeys == {"no_deps", "debug", "export", "unimock", "mockall"}
+Keywords == {"type", "fn", "match", "dyn", "impl"}      \* Rust keywords that can be written where an identifier is expected
 Bare(k)   == [k |-> k, f |-> "bare", v |-> ""]
 Eq(k, v)  == [k |-> k, f |-> "eq", v |-> v]
 
@@ -49,6 +50,8 @@ ParseOpt(t) ==   \* [err, key, val]
     [] t.k = "?Sized" -> [err |-> "unknown-option", key |-> "", val |-> ""]
     [] t.k = "delegate_by" ->
          IF t.f = "bare" THEN [err |-> "", key |-> "delegate", val |-> "self"]
+         \* the value is `ref`, the keyword `Self`, or an identifier: any other keyword is no identifier
+         ELSE IF t.v \in Keywords THEN [err |-> "syntax", key |-> "", val |-> ""]
          ELSE [err |-> "", key |-> "delegate",
                val |-> CASE t.v = "Self" -> "self" [] t.v = "ref" -> "ref" [] t.v = "Borrow" -> "borrow" [] OTHER -> "custom"]
     [] OTHER -> [err |-> "unknown-option", key |-> "", val |-> ""]             \* Unkonwn entrait option "x"
